@@ -126,4 +126,90 @@ theorem lastIdx_none {α : Type} (p : α → Bool) (l : List α) (i : Nat)
       · exact ih (i + 1) h y hy
 
 
+/-! ### `setLast` / `lastOn` as a finite map with one entry per stream -/
+theorem lastOn_setLast (l : KS) (s s' : Int) (n : NodeId) (hnd : (l.map (·.1)).Nodup) :
+    lastOn (setLast l s n) s' = if s' = s then some n else lastOn l s' := by
+  induction l with
+  | nil =>
+    simp only [setLast, List.any_nil, Bool.false_eq_true, if_false, List.nil_append, lastOn, List.find?_cons, List.find?_nil]
+    by_cases h : s' = s
+    · subst h; simp
+    · have : (s == s') = false := by simpa using (fun e => h e.symm)
+      simp [this, h]
+  | cons x xs ih =>
+    have hnd' := List.nodup_cons.mp hnd
+    by_cases hx : x.1 = s
+    · -- the head is the entry for `s`
+      have hany : (x :: xs).any (fun y => y.1 == s) = true := by simp [hx]
+      have hnot : ∀ y ∈ xs, (y.1 == s) = false := by
+        intro y hy
+        apply beq_false_of_ne
+        intro h
+        apply hnd'.1
+        exact List.mem_map.mpr ⟨y, hy, by simp only []; rw [h, hx]⟩
+      have hmap : xs.map (fun y => if y.1 == s then (s, n) else y) = xs := by
+        have : ∀ y ∈ xs, (fun (y : Int × NodeId) => if y.1 == s then (s, n) else y) y = id y := by
+          intro y hy; simp [hnot y hy]
+        rw [List.map_congr_left this, List.map_id]
+      simp only [setLast, hany, if_true, List.map_cons, hmap]
+      have hxs : (x.1 == s) = true := by simp [hx]
+      simp only [hxs, if_true, lastOn, List.find?_cons]
+      by_cases h : s' = s
+      · subst h; simp
+      · have h1 : (s == s') = false := by simpa using (fun e => h e.symm)
+        have h2 : (x.1 == s') = false := by rw [hx]; exact h1
+        simp [h1, h2, h]
+    · have hxs : (x.1 == s) = false := by simpa using hx
+      have ih' := ih hnd'.2
+      by_cases hany : xs.any (fun y => y.1 == s) = true
+      · have hany' : (x :: xs).any (fun y => y.1 == s) = true := by simp [hany]
+        simp only [setLast, hany', if_true, List.map_cons, hxs, Bool.false_eq_true, if_false] at ih' ⊢
+        simp only [setLast, hany, if_true] at ih'
+        simp only [lastOn, List.find?_cons] at ih' ⊢
+        by_cases hx' : (x.1 == s') = true
+        · have : s' ≠ s := by intro e; subst e; rw [hx'] at hxs; cases hxs
+          simp [hx', this]
+        · have hx'' : (x.1 == s') = false := by simpa using hx'
+          simp only [hx'', Bool.false_eq_true, if_false]
+          exact ih'
+      · have hany0 : xs.any (fun y => y.1 == s) = false := by
+          cases hb : xs.any (fun y => y.1 == s) with
+          | true => exact absurd hb hany
+          | false => rfl
+        have hany' : (x :: xs).any (fun y => y.1 == s) = false := by simp [hany0, hxs]
+        simp only [setLast, hany', Bool.false_eq_true, if_false, List.cons_append] at ih' ⊢
+        simp only [setLast, hany0, Bool.false_eq_true, if_false] at ih'
+        simp only [lastOn, List.find?_cons] at ih' ⊢
+        by_cases hx' : (x.1 == s') = true
+        · have : s' ≠ s := by intro e; subst e; rw [hx'] at hxs; cases hxs
+          simp [hx', this]
+        · have hx'' : (x.1 == s') = false := by simpa using hx'
+          simp only [hx'', Bool.false_eq_true, if_false]
+          exact ih'
+
+theorem setLast_nodup (l : KS) (s : Int) (n : NodeId) (hnd : (l.map (·.1)).Nodup) :
+    ((setLast l s n).map (·.1)).Nodup := by
+  unfold setLast
+  split
+  · have : (l.map fun x => if x.1 == s then (s, n) else x).map (·.1) = l.map (·.1) := by
+      rw [List.map_map]
+      apply List.map_congr_left
+      intro x _
+      simp only [Function.comp]
+      split
+      · rename_i h; simpa using (by simpa using h : x.1 = s).symm
+      · rfl
+    rw [this]; exact hnd
+  · rename_i h
+    rw [List.map_append, List.map_cons, List.map_nil]
+    apply List.nodup_append.mpr
+    refine ⟨hnd, by simp, ?_⟩
+    intro a ha b hb
+    simp only [List.mem_singleton] at hb
+    subst hb
+    intro e
+    apply h
+    obtain ⟨y, hy, rfl⟩ := List.mem_map.mp ha
+    exact List.any_eq_true.mpr ⟨y, hy, by simp [e]⟩
+
 end Hta.C08
